@@ -43,6 +43,8 @@ THEOREMS = [
     "Nix.C16.C16_creation_schema",
     "Nix.C16.C16_created_reads_back",
     "Nix.C16.C16_columns_units",
+    "Nix.C16.C16_schema_frame",
+    "Nix.C16.C16_append_column_named",
     # shape of the source (Generated/FrameShape.lean, regenerated on every run)
     "Nix.C16.C16_handles_stateless",
     "Nix.C16.C16_guards_as_modelled",
@@ -623,7 +625,10 @@ def gen_op(rng, st, stats):
                 if len(idx) > 1:
                     idx = idx[::-1]
                 else:
-                    idx, rows = [idx[0], idx[0]], rows + gen_rows(rng, types, 1)
+                    # one row named twice: literally, or once from the front and once from the back
+                    k = norm_i(idx[0], n)
+                    idx = rng.choice([[idx[0], idx[0]], [k, k - n], [k - n, k]])
+                    rows = rows + gen_rows(rng, types, 1)
             elif what == "count":
                 rows = rows + gen_rows(rng, types, 1)
             elif what == "short":
@@ -959,6 +964,41 @@ def oracle_history(ctx, k, rng, nops, fixed=None):
         finally:
             s.use(cur)
 
+    def copy_check(sh):
+        """create_data_frame(copy_from=frame): the copy holds the same table (creation variant `copy_from`); a write
+        to the copy changes the copy only (the caller re-checks the source afterwards)"""
+        s.count += 1
+        src, handles, cur = s.df, s.handles, s.cur
+        try:
+            cp = s.block.create_data_frame("copy%d" % s.count, copy_from=src)
+        except Exception as e:  # noqa
+            return fail("create_data_frame(copy_from=frame) was refused", {"err": err_name(e)}, "a copy",
+                        "nixio/block.py:create_data_frame")
+        try:
+            s.handles, s.cur, s.df = [cp], 0, cp
+            got, want = _norm(s.dump()), _norm(sh.dump())
+            for key in ("cols", "shape", "row_count", "rows", "units", "columns"):
+                if got[key] != want[key]:
+                    return fail("the copy made by create_data_frame(copy_from=frame) differs from the frame in its "
+                                + key, {key: got[key]}, {key: want[key]}, "nixio/block.py:create_data_frame")
+            if sh.rows:
+                c = len(sh.names) - 1
+                v = sh.rows[0][c]
+                flipped = (["s", v[1] + "~"] if v[0] == "s" else ["b", not v[1]] if v[0] == "b" else
+                           ["i", 0 if v[1] else 1] if v[0] == "i" else ["f", "0/1" if v[1] != "0/1" else "1/1"])
+                out = s.run(["write_cell_pos", flipped, [0, c]])
+                if "ok" not in out:
+                    return fail("a legal write_cell on the copy was refused", out, "accepted", "write_cell")
+                cps = sh.copy()
+                cps.rows[0][c] = flipped
+                got = _norm(s.dump())
+                if got["rows"] != _norm(cps.dump())["rows"]:
+                    return fail("write_cell on the copy is not what the copy returns", {"rows": got["rows"]},
+                                {"rows": cps.dump()["rows"]}, "write_cell")
+        finally:
+            s.handles, s.cur, s.df = handles, cur, src
+        return None
+
     def check_reads(sh):
         df = s.df
         n, m = len(sh.rows), len(sh.names)
@@ -1055,6 +1095,14 @@ def oracle_history(ctx, k, rng, nops, fixed=None):
             if line[0] == "handle":
                 s.use(line[1])
                 continue
+            if line[0] == "copy_check":
+                f = copy_check(sh)
+                if f:
+                    return evals, f
+                f = check(sh, "create_data_frame(copy_from=...) and a write to the copy")
+                if f:
+                    return evals, f
+                continue
             if line[0] == "reopen":
                 s.reopen()
                 f = check(sh, "reopen")
@@ -1127,6 +1175,8 @@ def oracle_op(rng, sh):
     refuse = rng.random() < 0.25
     if kind == "reopen":
         return ["reopen"], "accept"
+    if rng.random() < 0.04:
+        return ["copy_check"], "accept"
     if rng.random() < 0.2:
         # go on through another live object of the frame (index 4 = one more, fetched now)
         return ["handle", rng.randrange(5)], "accept"
@@ -1243,6 +1293,11 @@ FIXED_CASES = [
      {"line": ["write_column", [["i", 5], ["i", 6], ["i", 300]], 0, None], "expect": "a cell the column type refuses"},
      {"line": ["write_column", [["i", 5], ["s", "x"], ["i", 7]], None, "a"], "expect": "a cell the column type refuses"},
      _acc(["write_column", [["i", 7], ["i", 8], ["i", 9]], -2, None])],
+    # creation variant copy_from: same table, independent of the source
+    [["create_dict", [["s", "text"], ["k", "u8"]], [[["s", "a"], ["i", 1]], [["s", "b"], ["i", 255]]]],
+     _acc(["set_units", [None, "mV"]]), _acc(["copy_check"]),
+     _acc(["append_column", [["b", True], ["b", False]], "flag", "bool"]), _acc(["copy_check"])],
+    [["create_names_types", ["x"], ["f64"], None], _acc(["copy_check"])],
     # creation with zero rows through data=[]
     [["create_dict", [["a", "i64"], ["s", "text"]], []], _acc(["append_rows", [[["i", 1], ["s", "x"]]]])],
     [["create_names_types", ["a", "s"], ["i64", "text"], []]],
